@@ -187,20 +187,24 @@ func writeIsTriviallySerializableSpecializations(w *formatting.IndentedWriter, e
 	w.WriteStringln("#pragma GCC diagnostic ignored \"-Winvalid-offsetof\"")
 	w.WriteStringln("#endif\n")
 
+	// Containers of trivially serializable elements are copied as one block of memory without
+	// calling the element serializer, so a record that previous versions read and write through
+	// a compatibility serializer must not be declared trivially serializable. The changes are
+	// recorded on the top-level namespace, also those of records defined in imported namespaces.
+	changedRecords := make(map[string]bool)
 	for _, ns := range env.Namespaces {
-		// Containers of trivially serializable elements are copied as one block of memory without
-		// calling the element serializer, so a record that previous versions read and write through
-		// a compatibility serializer must not be declared trivially serializable.
-		changedRecords := make(map[string]bool)
 		for _, changes := range ns.DefinitionChanges {
 			for _, change := range changes {
 				if rc, ok := change.(*dsl.RecordChange); ok {
-					changedRecords[rc.LatestDefinition().GetDefinitionMeta().Name] = true
+					meta := rc.LatestDefinition().GetDefinitionMeta()
+					changedRecords[meta.Namespace+"."+meta.Name] = true
 				}
 			}
 		}
+	}
+	for _, ns := range env.Namespaces {
 		for _, td := range ns.TypeDefinitions {
-			if changedRecords[td.GetDefinitionMeta().Name] {
+			if changedRecords[td.GetDefinitionMeta().Namespace+"."+td.GetDefinitionMeta().Name] {
 				continue
 			}
 			writeIsTriviallySerializableSpecialization(w, td)
@@ -423,7 +427,7 @@ func writeUnionSerializers(w *formatting.IndentedWriter, env *dsl.Environment) {
 }
 
 func writeNamespaceDefinitions(w *formatting.IndentedWriter, ns *dsl.Namespace) {
-	if len(ns.TypeDefinitions) > 0 {
+	if len(ns.TypeDefinitions) > 0 || len(ns.DefinitionChanges) > 0 {
 		w.WriteStringln("namespace {")
 		for _, typeDef := range ns.TypeDefinitions {
 			writeSerializers(w, typeDef)
